@@ -111,6 +111,8 @@ func (p Program) InternalOps() []Op {
 			{Kind: OpMap, Var: MapGroupSum}, {Kind: OpReduce}}
 	case ShapeCogroup3:
 		return []Op{{Kind: OpFilter, Var: FilterAlt}}
+	case ShapeFanout:
+		return []Op{{Kind: OpMap, Var: MapAdd1}, fanoutOp(p.N1), fanoutOp(p.N2)}
 	}
 	return nil
 }
